@@ -5,7 +5,7 @@
    documentation, written on lists. *)
 From Coq Require Import ZArith List Bool Arith.
 Import ListNotations.
-From Mds Require Import Ring.RingModel.
+From Mds Require Import Ring.RingBase.
 
 Section Spec.
 Variable T : Type.
